@@ -267,8 +267,15 @@ func formatterCorpus(e *Engine, seed int) []string {
 		if len(toks) < 3 {
 			continue
 		}
-		for k := 0; k < 4; k++ {
+		nPos := 4
+		if thoroughTier {
+			nPos = len(toks) // a comment at every token boundary of every sentence
+		}
+		for k := 0; k < nPos; k++ {
 			i := (bi*7 + k*5 + seed) % len(toks)
+			if thoroughTier {
+				i = k
+			}
 			var own, same []string
 			for j, t := range toks {
 				if j == i {
@@ -302,6 +309,9 @@ func formatterCorpus(e *Engine, seed int) []string {
 	}
 	return out
 }
+
+// thoroughTier: set by the check command; widens the enumerated corpora.
+var thoroughTier bool
 
 var standinRan bool
 var standinOut map[string][]standinOutcome // class -> outcomes
